@@ -710,6 +710,10 @@ func (l *Lexer) errorf(msg string, param ...interface{}) *Error {
 }
 
 func (l *Lexer) errorfAtPosition(pos, end token.Pos, msg string, param ...interface{}) *Error {
+	// An escape sequence cut short by the end of input is reported up to the end of input, not beyond it.
+	if int(end) > len(l.Buffer) {
+		end = token.Pos(len(l.Buffer))
+	}
 	return &Error{
 		Message:  fmt.Sprintf(msg, param...),
 		Position: l.Position(pos, end),
